@@ -96,6 +96,15 @@ theorem file_mutation_only_in_commit :
 theorem shared_freelist_only_at_commit :
     Gen.sharedFreelistWriters.all (fun f => ["db.rs:open", "tx.rs:write_data"].contains f) = true := by decide
 
+/-- a handle is writable only if the handle or transaction it was derived from is: the flag is copied
+(`self.writable`, `b.writable`, `self.c.writable`, `tx.lock.writable()`), and the literal `true` occurs
+only in the two `Tx` methods that have already refused a read-only transaction -/
+theorem handles_inherit_writability :
+    Gen.writableSources.all (fun e =>
+      ["self.writable", "b.writable", "self.c.writable", "tx.lock.writable()"].contains e.2 ||
+      (e.2 == "true" && ["tx.rs:create_bucket", "tx.rs:get_or_create_bucket"].contains e.1)) = true := by
+  decide
+
 /-- `commit` itself refuses a read-only transaction before doing anything -/
 theorem commit_guard_first : Gen.commitOuter.head? = some .guardWritable := by decide
 
